@@ -3,6 +3,13 @@
 S3Service::call with SimpleAuth; a correctly signed request must reach the backend."""
 def find(ctx, oblig, diag):
     mode = "presigned" if "presigned" in oblig else "header"
+    if "headers" in oblig and "signed_headers" not in oblig:
+        for v in ("a  b", "  a   b c  ", "a b"):
+            res = ctx["replay_tool"](["sigv4-header-value", v])
+            if res.get("violates"):
+                res["source"] = "signed header value with repeated inner spaces, signed per the AWS rule (Trimall)"
+                return res
+        return res
     if "duplicate_names_sorted_by_value" in oblig:
         res = ctx["replay_tool"](["sigv4", mode, "/bkt/key", "x=2", "x=1"])
         res["source"] = "duplicate parameter names with descending values, signed per the AWS rule (duplicates sorted by value)"
